@@ -1780,6 +1780,17 @@ func (r *Raft) sendInstallSnapshot(id, address string) {
 		return
 	}
 
+	// The node was removed from the cluster while the request was in flight. As for
+	// AppendEntries, nothing in its response is acted upon - in particular not its term -
+	// and the snapshot file that was open for it is released.
+	if !r.isMember(id) {
+		if err := follower.snapshot.Close(); err != nil {
+			r.logger.Errorf("failed to close snapshot file: error = %v", err)
+		}
+		follower.snapshot = nil
+		return
+	}
+
 	// If the follower has a more up-to-date term, transition to the follower state.
 	if response.Term > r.currentTerm {
 		r.becomeFollower(id, response.Term)
